@@ -344,8 +344,6 @@ def unsafe_component(path: bytes, v: str):
 
 def _stream_exhaustive(ctx):
     L = 6 if ctx.thorough else 5
-    if ctx.lean is not None and not ctx.lean.ok:
-        L = 6
     CH = 60000
     buf = []
     n = 0
@@ -810,6 +808,81 @@ def impl_bift(a):
     return {"entries": entries, "out": out, "walk": walk}
 
 
+
+def _prep_nodes(bb: bytes, nodes):
+    for rel, kind, *pl in nodes:
+        pth = os.path.join(bb, bytes.fromhex(rel))
+        if kind == "d":
+            os.makedirs(pth, exist_ok=True)
+        elif kind == "f":
+            with open(pth, "wb") as f:
+                f.write(bytes.fromhex(pl[1]))
+            os.chmod(pth, pl[0])
+        else:
+            t = bytes.fromhex(pl[0])
+            os.symlink(bb + t if t.startswith(b"/") else t, pth)
+
+
+def _walk_files(bb: bytes, skip=(b"outer/wt/.git",)):
+    walk = {}
+
+    def rec(d):
+        for e in sorted(os.scandir(d), key=lambda x: x.name):
+            rel = os.path.relpath(e.path, bb)
+            if rel in skip or rel in (b"_index", b"_index.lock"):
+                continue
+            st = os.lstat(e.path)
+            if stat.S_ISLNK(st.st_mode):
+                t = os.readlink(e.path)
+                if t.startswith(bb + b"/"):
+                    t = t[len(bb):]
+                walk[rel.hex()] = "l:" + (t.hex() or "-")
+            elif stat.S_ISDIR(st.st_mode):
+                walk[rel.hex()] = "d"
+                rec(e.path)
+            else:
+                with open(e.path, "rb") as f:
+                    walk[rel.hex()] = f"f:{stat.S_IMODE(st.st_mode)}:" + (f.read().hex() or "-")
+    rec(bb)
+    return walk
+
+
+def impl_uwt_delete(a):
+    """One real update_working_tree whose only change is the DELETE of `path` (old tree {path}, new tree {}),
+    on a prepared directory tree; returns the outcome and a walk of the sandbox."""
+    import errno
+    import dulwich.index as I
+    from dulwich.diff_tree import tree_changes
+    from dulwich.repo import Repo
+    base = a["base"]
+    assert base.startswith(a["scratch"] + os.sep) and "/../" not in base
+    os.umask(0o022)
+    if os.path.exists(base):
+        shutil.rmtree(base)
+    bb = os.fsencode(base)
+    wt = os.path.join(bb, bytes.fromhex(a["root"]))
+    os.makedirs(wt)
+    r = Repo.init(os.fsdecode(wt))
+    _prep_nodes(bb, a["nodes"])
+    old = _write_tree(r.object_store, a["old"])
+    new = _write_tree(r.object_store, [])
+    vf = {"d": I.validate_path_element_default, "n": I.validate_path_element_ntfs}[a["v"]]
+    os.chdir(base)
+    out = "ok"
+    try:
+        I.update_working_tree(r, old, new, change_iterator=tree_changes(r.object_store, old, new),
+                              validate_path_element=vf, allow_overwrite_modified=True)
+    except I.InvalidPathError:
+        out = "InvalidPath"
+    except OSError as e:
+        out = errno.errorcode.get(e.errno, "OSError")
+    walk = _walk_files(bb)
+    r.close()
+    os.chdir(a["scratch"])
+    shutil.rmtree(base, ignore_errors=True)
+    return {"out": out, "walk": walk}
+
+
 # ------------------------------------------------------------------------------------------------
 # parent side: scenario construction, the oracle in the property's words, failure classification
 
@@ -870,6 +943,7 @@ def tree_paths(spec, prefix=b""):
 
 LINK_TARGETS = [b"../outside_dir", b"..", b".git", b".git/hooks", b".git/canary_dir", b"../outside_dir/sub", b".",
                 b"sib", b"../empty_dir", b"/ABS/outer/outside_dir", b"../outside_dir/x", b".git/canary", b".git/config"]
+KEY_TARGETS = (b"../outside_dir", b".git/canary_dir", b".git/canary", b"../outside_dir/x")
 UNSAFE_NAMES = [b".git", b".GIT", b".Git", b".git ", b".git.", b".git . .", b"git~1", b"GIT~1", b"git~1 .",
                 b".git::$INDEX_ALLOCATION", b".git:stream", b".g\xe2\x80\x8cit", b"\xef\xbb\xbf.git", b".gi\xe2\x80\xaet",
                 b"a\\.git", b".git\\x", b"..", b".", b"", b". ", b".. "]
@@ -1014,6 +1088,10 @@ def run_scenario(ctx, worker, stream: str, case: dict, tag: str, n: int):
         ctx.extra_cov["scenario_errors"] = ctx.extra_cov.get("scenario_errors", 0) + 1
         return None
     judge(ctx, stream, case, rep["r"], base)
+    if stream.endswith("random") and len([x for x in ctx.samples if isinstance(x, dict) and x.get("stream") == stream]) < 1:
+        ctx.sample({"stream": stream, "steps": case["steps"], "cfg": case.get("cfg"),
+                    "trees": [[(p.decode("latin1"), oct(e["m"])) for p, e in tree_paths(t)] for t in case["trees"]],
+                    "outcomes": [sr["out"][:60] for sr in rep["r"]]})
     for sr in rep["r"]:
         key = sr["op"] + ":" + ("ok" if sr["out"] == "ok" else sr["out"].split(":")[0])
         d = ctx.hist.setdefault(stream + ".outcomes", {})
@@ -1182,11 +1260,24 @@ def run(ctx: core.Ctx):
         "Unicode NFD + str.lower() of the HFS validator is a parameter (`fold`) of the model; its value on every "
         "input that occurs is taken from the real unicodedata at run time; the theorems assume only that it maps "
         "ASCII to ASCII lower case (checked in stream fold.ascii)",
+        "file-system model (Model/Checkout.lean): the work-tree root is a physical path; os.makedirs = exists-tests on "
+        "the pre-state then mkdir outermost first, aborting on the first error; files are created 0644 (umask 022); "
+        "no concurrent writer; directory modes, ownership, timestamps, the index file and path-length limits are not "
+        "modelled; tied to the real build_index_from_tree / update_working_tree delete by streams bift.model and "
+        "uwt.delete.model on real directory trees",
+        "`confined`/`safe_prefix_sound` are proved for build_index_from_tree (clone, reset_index; stash pop runs the same "
+        "verify+write loop); the add/modify phase of update_working_tree, checkout(paths=), restore and patch "
+        "application are covered by the direct oracle only (sandbox with canaries, snapshot before/after each step)",
+        "the snapshot records index, HEAD, ORIG_HEAD, packed-refs, FETCH_HEAD, refs/**, logs/**, objects/** inside "
+        "wt/.git by type only (operations legitimately rewrite them): a write THROUGH a hostile symlink into exactly "
+        "those files would not be seen; every other path under the sandbox (outside wt, and the rest of wt/.git) is "
+        "compared by type, mode, link target and content hash",
     ]
     _stream_misc(ctx)
     _stream_fragments(ctx)
     _stream_exhaustive(ctx)
     _stream_bift(ctx)
+    _stream_uwt_delete(ctx)
     _stream_sequences(ctx)
 
 
@@ -1306,7 +1397,68 @@ def _stream_bift(ctx, scale=1):
         w.close()
 
 
-def _stream_sequences(ctx, scale=1):
+
+def _node_tokens(nodes):
+    return [":".join([n[0], n[1]] + ([str(n[2]), n[3] or "-"] if n[1] == "f" else [n[2] or "-"] if n[1] == "l" else []))
+            for n in nodes]
+
+
+def _stream_uwt_delete(ctx, scale=1):
+    """(b') the delete phase of update_working_tree for ONE old path: model `deleteOld` vs the real function,
+    compared on every regular file and symlink of the sandbox (directories: rmdir of emptied parents is not modelled).
+    The direct oracle runs on the same cases: nothing outside the work tree may disappear."""
+    w = core.Worker("py", mem_mb=2048)
+    rng = ctx.rng
+    try:
+        cases = []
+        for _ in range(ctx.budget(150) * scale):
+            c = gen_bift_case(rng)
+            path = rng.choice([b"d/x", b"d/sub/y", b"d/f", b"e/f", b"e/x", b"a", b"d", b"a/f", b"e/l/q", b"d/l", b"loop/x", b"e/sub/y",
+                               b"d/../x", b".git/canary"])
+            c["path"] = path.hex()
+            c["old"] = mk_tree([(path, "F" if b".." in path else "f", b"precious")])
+            cases.append(c)
+        lines, idx = [], []
+        for i, c in enumerate(cases):
+            rep = w.ask({"mod": MOD, "op": "uwt_delete", "args": {"base": str(ctx.scratch / "p" / "q" / f"u{i}"), "scratch": str(ctx.scratch),
+                                                                 "nodes": c["nodes"], "old": c["old"], "v": c["v"], "root": c["root"]}}, timeout=60)
+            if "r" not in rep:
+                ctx.notes.append(f"uwt_delete case did not complete: {str(rep)[:200]}")
+                continue
+            r = rep["r"]
+            nodes = _node_tokens(c["nodes"])
+            queries = sorted(set(r["walk"]) | {n[0] for n in c["nodes"]})
+            lines.append(" ".join(["c17.del", c["v"], c["root"], str(len(nodes))] + nodes + [c["path"]] + queries))
+            idx.append((c, r))
+        outs = ctx.driver.batch(lines)
+        for (c, r), o in zip(idx, outs):
+            parts = o.split(" ")
+            if len(parts) < 2:
+                raise core.InfraError(f"driver answered {o!r} to c17.del")
+            model = dict(x.split("=", 1) for x in parts[2:] if "=" in x)
+            mf = {k: v for k, v in model.items() if v[0] in "fl"}
+            rf = {k: v for k, v in r["walk"].items() if v[0] in "fl"}
+            ctx.count("uwt.delete.model", json.dumps(c, sort_keys=True), True, f"{c['v']}:log{parts[1]}:{r['out']}")
+            if mf != rf:
+                diff = {k: (mf.get(k), rf.get(k)) for k in set(mf) | set(rf) if mf.get(k) != rf.get(k)}
+                ctx.disagree("uwt.delete.model", {"case": c}, f"{parts[0]} {diff}"[:500], r["out"], "py")
+            init = {n[0]: n for n in c["nodes"] if n[1] in "fl"}
+            for k in init:
+                rel = bytes.fromhex(k)
+                if not (rel == b"outer/wt" or rel.startswith(b"outer/wt/")) and k not in r["walk"]:
+                    # the narrow class of the known finding: a leading component of the old path is a symlink on disk
+                    lead = bytes.fromhex(c["path"]).split(b"/")[:-1]
+                    links = {bytes.fromhex(n[0]) for n in c["nodes"] if n[1] == "l"}
+                    through = any(b"outer/wt/" + b"/".join(lead[:j]) in links for j in range(1, len(lead) + 1))
+                    ctx.oracle_fail("uwt.delete.model", {"delete_case": c, "path": k},
+                                    f"update_working_tree (delete of {bytes.fromhex(c['path'])!r}) removed {rel!r} outside the work tree",
+                                    "uwt-delete-through-symlinked-leading-dir" if through else None)
+                    break
+    finally:
+        w.close()
+
+
+def _stream_sequences(ctx, scale=1, full=False, stream_prefix="seq"):
     """(c) the direct oracle: sequences of hostile trees through the real entry points, snapshot before/after."""
     w = core.Worker("py", mem_mb=2048)
     n = 0
@@ -1320,20 +1472,33 @@ def _stream_sequences(ctx, scale=1):
             if c.get("expect_class") and ctx.known_hit == before and len(ctx.oracle_failures) == nf:
                 ctx.notes.append(f"corpus witness {f.name} no longer fails (finding fixed?)")
         fixed = fixed_scenarios()
-        ctx.extra_cov["fixed_scenarios"] = len(fixed)
+        ctx.extra_cov["fixed_scenarios_total"] = len(fixed)
+        if not full and not ctx.thorough and not (ctx.lean is not None and not ctx.lean.ok):
+            # quick tier: every template for the key link targets, a seed-dependent third of the rest
+            fixed = [(t, c) for t, c in fixed
+                     if (t.split(":", 1)[0] in ("collide", "patch") and t.split(":", 1)[1].encode() in KEY_TARGETS)
+                     or t == "modes" or ctx.rng.random() < 0.34]
+        ctx.extra_cov["fixed_scenarios_run"] = len(fixed)
         for tag, case in fixed:
-            run_scenario(ctx, w, "seq.fixed", case, tag.split(":")[0], n)
+            run_scenario(ctx, w, stream_prefix + ".fixed", case, tag.split(":")[0], n)
             n += 1
-        for _ in range(ctx.budget(150) * scale):
+        for _ in range(ctx.budget(250) * scale):
             case = random_scenario(ctx.rng)
-            run_scenario(ctx, w, "seq.random", case, "+".join(s["op"] for s in case["steps"])[:60], n)
+            run_scenario(ctx, w, stream_prefix + ".random", case, "+".join(s["op"] for s in case["steps"])[:60], n)
             n += 1
     finally:
         w.close()
 
 
 def search(ctx: core.Ctx):
-    pass
+    """Failing-input search after a broken obligation / translator / correspondence: the direct oracle with every
+    fixed template and a boosted random budget, then the two file-system correspondence streams (their built-in
+    oracle: nothing outside the work tree changes) with a boosted budget."""
+    _stream_sequences(ctx, scale=3, full=True, stream_prefix="search.seq")
+    if ctx.oracle_failures:
+        return
+    _stream_bift(ctx, scale=4)
+    _stream_uwt_delete(ctx, scale=3)
 
 
 def replay(ctx: core.Ctx, data: dict) -> int:
